@@ -203,11 +203,19 @@ def _flat(t: T, assume, out: List[Seg]) -> None:
         _flat(t.a[1][0], assume, out)
         return
     # ''.join(<list built by (conditional) appends>)  ==  concatenation of the (conditional) pieces
-    if t.op == "call" and t.a[0] == T("attr", (const(""), "join")) and len(t.a[1]) == 1 and not t.a[2]:
+    sep = t.a[0].a[0].a[0] if (t.op == "call" and t.a[0].op == "attr" and t.a[0].a[1] == "join" and t.a[0].a[0].op == "const"
+                               and isinstance(t.a[0].a[0].a[0], str)) else None
+    if sep is not None and len(t.a[1]) == 1 and not t.a[2]:
         items = listify(t.a[1][0])
+        # with a non-empty separator only the shape "unconditional first piece, then (conditional) pieces" is a plain
+        # concatenation:  sep.join([a] + ([b] if c else []))  ==  a + (sep + b if c else '')
+        if items is not None and sep and not (items and not items[0][1] and all(is_stringy(e) for e, _ in items)):
+            items = None
         if items is not None:
-            for elem, conds in items:
+            for i, (elem, conds) in enumerate(items):
                 segs = flatten(elem, assume)
+                if sep and i:
+                    segs = _merge([("lit", sep)] + segs)
                 for c in reversed(conds):
                     tv = assume_lookup(assume, c[0])
                     if tv is None:
